@@ -4,6 +4,7 @@ package main
 
 import (
 	"fmt"
+	"strings"
 	"go/ast"
 	"go/token"
 	"go/types"
@@ -637,9 +638,10 @@ func (e *Engine) execReturn(st *State, n *ast.ReturnStmt, cx *Ctx) *State {
 // Loops.
 
 // assignedIn collects variables assigned in a statement (including nested closures) and whether the heap may change.
-func (e *Engine) assignedIn(n ast.Node) (map[*types.Var]bool, bool) {
+func (e *Engine) assignedIn(n ast.Node) (map[*types.Var]bool, bool, bool) {
 	vars := map[*types.Var]bool{}
 	heap := false
+	maps := false
 	mark := func(x ast.Expr) {
 		for {
 			switch t := x.(type) {
@@ -656,9 +658,20 @@ func (e *Engine) assignedIn(n ast.Node) (map[*types.Var]bool, bool) {
 			case *ast.SelectorExpr:
 				// field of a local struct value or heap write
 				heap = true
+				if _, isPtr := under(e.pkg.info.TypeOf(t.X)).(*types.Pointer); isPtr {
+					return // write through a pointer: the pointer variable itself is not assigned
+				}
 				x = t.X
 				continue
 			case *ast.IndexExpr:
+				switch under(e.pkg.info.TypeOf(t.X)).(type) {
+				case *types.Map:
+					maps = true
+					return
+				case *types.Slice, *types.Pointer:
+					heap = true
+					return // element write: the slice variable itself is not assigned
+				}
 				heap = true
 				x = t.X
 				continue
@@ -688,26 +701,65 @@ func (e *Engine) assignedIn(n ast.Node) (map[*types.Var]bool, bool) {
 				mark(s.X)
 			}
 		case *ast.CallExpr:
-			if !e.isPureCallSyntactic(s) {
-				heap = true
-			}
+			h, m := e.callEffects(s)
+			heap = heap || h
+			maps = maps || m
 		}
 		return true
 	})
-	return vars, heap
+	return vars, heap, maps
+}
+
+// callEffects: may this call change the heap (Mem / typed heaps) or map state (Go maps, ghost maps)?
+func (e *Engine) callEffects(call *ast.CallExpr) (heap bool, maps bool) {
+	if id, ok := call.Fun.(*ast.Ident); ok {
+		if b, ok := e.pkg.info.Uses[id].(*types.Builtin); ok {
+			switch b.Name() {
+			case "delete":
+				return false, true
+			case "copy", "append":
+				return true, false
+			}
+			return false, false
+		}
+	}
+	if e.isPureCallSyntactic(call) {
+		return false, false
+	}
+	fn := e.calleeFunc(call)
+	if fn != nil {
+		if fc := e.prog.contracts[fn.FullName()]; fc != nil && !fc.inline {
+			if fc.modAll {
+				return true, true
+			}
+			for _, m := range fc.modifies {
+				if _, isMap := under(m.info.TypeOf(m.expr)).(*types.Map); isMap {
+					maps = true
+				} else {
+					heap = true
+				}
+			}
+			return heap, maps
+		}
+		if strings.Contains(fn.FullName(), ".PutUint") {
+			return true, false
+		}
+	}
+	return true, true
 }
 
 func (e *Engine) havocLoopTargets(st *State, body ast.Node, extra ...ast.Node) {
-	vars, heap := e.assignedIn(body)
+	vars, heap, maps := e.assignedIn(body)
 	for _, x := range extra {
 		if x == nil {
 			continue
 		}
-		v2, h2 := e.assignedIn(x)
+		v2, h2, m2 := e.assignedIn(x)
 		for k := range v2 {
 			vars[k] = true
 		}
 		heap = heap || h2
+		maps = maps || m2
 	}
 	// deterministic order
 	var objs []*types.Var
@@ -727,8 +779,28 @@ func (e *Engine) havocLoopTargets(st *State, body ast.Node, extra ...ast.Node) {
 		st.vars[o] = e.symbolic(st, "lv_"+o.Name(), o.Type())
 	}
 	if heap {
-		e.havocHeap(st, "loop")
+		e.havocHeapOnly(st, "loop")
+		if e.frame != nil && !e.frame.all {
+			e.epochFrames[st.epoch] = true
+			e.assumeFrameMem(st)
+		}
 	}
+	if maps {
+		for k, v := range st.ghost {
+			st.ghost[k] = e.fresh("g_"+k+"_loop", v.sort)
+		}
+		e.assumeFrameMaps(st)
+	}
+}
+
+func (e *Engine) havocHeapOnly(st *State, why string) {
+	oldAlloc := st.alloc
+	e.epochCtr++
+	st.epoch = e.epochCtr
+	st.H = map[string]T{}
+	st.Mem = e.fresh("Mem_"+why, SHeap)
+	st.alloc = e.fresh("alloc_"+why, SInt)
+	e.assume(st, Ge(st.alloc, oldAlloc), "allocation pointer is monotone")
 }
 
 func (e *Engine) havocHeap(st *State, why string) {
@@ -764,8 +836,11 @@ func (e *Engine) checkInvariants(st *State, lc *LoopContract, kind string, pos t
 		return
 	}
 	for _, inv := range lc.invariants {
-		g := e.evalClause(st, inv, nil)
-		e.oblige(st, kind, inv.text, g, pos, inv)
+		m := e.beginScope()
+		tmp := st.clone()
+		g := e.evalClause(tmp, inv, nil)
+		e.oblige(tmp, kind, inv.text, g, pos, inv)
+		e.endScope(m)
 	}
 }
 
@@ -778,9 +853,11 @@ func (e *Engine) checkSteps(st *State, iterStart *State, lc *LoopContract, pos t
 	e.oldState = iterStart
 	defer func() { e.oldState = save }()
 	for _, s := range lc.steps {
-		g := e.evalClause(st, s, nil)
+		m := e.beginScope()
 		tmp := st.clone()
+		g := e.evalClause(tmp, s, nil)
 		e.oblige(tmp, "step", s.text, g, pos, s)
+		e.endScope(m)
 	}
 }
 
@@ -838,8 +915,11 @@ func (e *Engine) execFor(st *State, n *ast.ForStmt, cx *Ctx) *State {
 		}
 		e.checkInvariants(back, lc, "inv-pres", n.Pos())
 		if lc != nil && lc.decreases != nil {
-			d1 := e.asInt(e.evalClauseValue(back, lc.decreases), nil)
-			e.oblige(back, "decr", lc.decreases.text, And(Ge(dec0, I(0)), Lt(d1, dec0)), n.Pos(), lc.decreases)
+			m := e.beginScope()
+			tmp := back.clone()
+			d1 := e.asInt(e.evalClauseValue(tmp, lc.decreases), nil)
+			e.oblige(tmp, "decr", lc.decreases.text, And(Ge(dec0, I(0)), Lt(d1, dec0)), n.Pos(), lc.decreases)
+			e.endScope(m)
 		}
 	}
 	cx.returns = append(cx.returns, inner.returns...)
@@ -938,10 +1018,17 @@ func (e *Engine) execRange(st *State, n *ast.RangeStmt, cx *Ctx) *State {
 		_ = isStr
 		idxObj := types.NewVar(n.Pos(), nil, "range_idx", types.Typ[types.Int])
 		st.vars[idxObj] = IntV{I(0)}
+		var iterObj types.Object
+		if sc := e.pkg.info.Scopes[n]; sc != nil {
+			iterObj = sc.Lookup("iter_")
+		}
 		bindHead := func(s *State) {
 			iv, _ := s.vars[idxObj].(IntV)
 			if keyObj != nil {
 				s.vars[keyObj] = IntV{iv.t}
+			}
+			if iterObj != nil {
+				s.vars[iterObj] = IntV{iv.t}
 			}
 		}
 		if keyObj != nil {
@@ -977,6 +1064,9 @@ func (e *Engine) execRange(st *State, n *ast.RangeStmt, cx *Ctx) *State {
 		out := e.execBlock(body, n.Body.List, inner)
 		back := e.merge(append([]*State{out}, inner.continues...))
 		if back != nil {
+			if iterObj != nil {
+				back.vars[iterObj] = IntV{i}
+			}
 			e.checkSteps(back, iterStart, lc, n.Pos())
 			back.vars[idxObj] = IntV{Add(i, I(1))}
 			bindHead(back)
